@@ -182,6 +182,16 @@ def s_sources(F, X, rep):
         okk = None not in ks and bool(ks)
         rep.ob(rid, okk, F.root_of(b), "written value is a reported height", where=loc(s_["sp"]), how=str(sorted(k for k in ks if k)), detail="" if okk else "the height cell is updated with %s" % show(val)[:80])
         kinds |= {k for k in ks if k}
+    # a notified height is never dropped: in the body that writes block_added.height, every path passes the compare-and-
+    # write region (no branch that answers the notification some other way, e.g. by re-querying instead)
+    for b, bi, s_, r in writes:
+        val = strip(X.rvalue(b, s_["rv"], (b.cdef, bi, ""), 0))
+        if "block_added.height" not in _height_kind(F, X, val):
+            continue
+        rets = b.returns()
+        esc = [x for x in rets if x in b.reach([0], removed_nodes=list(r.def_blocks))]
+        rep.ob(rid, not esc, F.root_of(b), "every block_added notification is compared with the cell", where=loc(b.term(r.def_blocks[0])["sp"]), how="no return reachable without taking the height guard",
+               detail="" if not esc else "a block_added notification can be handled without its height reaching the cell (return at %s bypasses the update): the height is no longer the maximum of what the plugin was told" % loc(b.term(esc[0])["sp"]))
     ok = kinds == {"getinfo.blockheight", "block_added.height"}
     rep.ob(rid, ok, "crate", "both sources feed the cell", how=str(sorted(kinds)), detail="" if ok else "height sources wired to the cell: %s" % sorted(kinds))
     # BlockProvider impl: returns the cell's value
